@@ -16,7 +16,8 @@ UNKNOWN = object()
 
 def get_value(expr: ast.AST | astroid.NodeNG, allow_inference: bool = True) -> object:
     if isinstance(expr, ast.AST):
-        with suppress(ValueError, SyntaxError):
+        # TypeError: unhashable dict key or set element, like `{[1]: 2}`
+        with suppress(ValueError, SyntaxError, TypeError):
             return ast.literal_eval(expr)
         return UNKNOWN
     if astroid is None:  # pragma: no-astroid
@@ -26,7 +27,7 @@ def get_value(expr: ast.AST | astroid.NodeNG, allow_inference: bool = True) -> o
         # AttributeError: 'AsStringVisitor3' object has no attribute 'visit_unknown'
         with suppress(AttributeError):  # pragma: no cover
             renderred = expr.as_string()
-            with suppress(ValueError, SyntaxError):
+            with suppress(ValueError, SyntaxError, TypeError):
                 return ast.literal_eval(renderred)
 
     value = _parse_collections(expr)
@@ -57,5 +58,7 @@ def _parse_collections(expr: astroid.NodeNG) -> object:
     if type(expr) is astroid.Tuple:
         return tuple(result)
     if type(expr) is astroid.Set:
-        return set(result)
+        with suppress(TypeError):  # unhashable element
+            return set(result)
+        return UNKNOWN
     return result
